@@ -96,7 +96,12 @@ int streamWrapper(void *ptr, const MPT_STRUCT(message) *msg)
 				        MPT_tr("dispatch failed"), MPT_tr("unknown reply id"), mid);
 				return MPT_ERROR(BadValue);
 			}
-			return ans->cmd(ans->arg, &tmp);
+			/* request is answered: release registration before the handler runs */
+			{
+				int (*reply)() = ans->cmd;
+				ans->cmd = 0;
+				return reply(ans->arg, &tmp);
+			}
 		}
 		ctx = 0;
 		for (i = 0; i < idlen; ++i) {
@@ -239,7 +244,13 @@ extern int mpt_connection_dispatch(MPT_STRUCT(connection) *con, MPT_TYPE(event_h
 		}
 		msg.base = data + hlen;
 		msg.used = buf->_used - hlen;
-		if ((len = ans->cmd(ans->arg, &msg)) < 0) {
+		/* request is answered: release registration before the handler runs */
+		{
+			int (*reply)() = ans->cmd;
+			ans->cmd = 0;
+			len = reply(ans->arg, &msg);
+		}
+		if (len < 0) {
 			mpt_log(0, _func, MPT_LOG(Error), "%s (%i)",
 			        MPT_tr("reply processing failed"), len);
 			return MPT_ERROR(MissingBuffer);
